@@ -103,6 +103,9 @@ class Ctx:
         self.list_crtf = Regions([self.reg[n] for n in ('sky_circle', 'sky_ellipse', 'sky_rectangle', 'sky_polygon', 'sky_circleannulus',
                                                         'sky_line', 'sky_text', 'sky_circle_gal', 'sky_ellipse_excl')])
         self.list_mixed = Regions([self.reg[n] for n in ('circle', 'sky_circle', 'line', 'text', 'rectangleannulus', 'sky_text')])
+        # RegionMask objects held by the caller (inputs of the mask-application operations)
+        self.masks = [self.reg['circle'].to_mask('center'), self.reg['ellipse'].to_mask('subpixels', subpixels=3),
+                      self.reg['compound'].to_mask('center')]
         self.ds9_text = str(DS9_TEXT)
         self.crtf_text = str(CRTF_TEXT)
         self.fits_table = _fits_table()
@@ -136,7 +139,7 @@ class Ctx:
         d = {n: FP.fp(r) for n, r in self.reg.items()}
         d['wcs'] = FP.fp(self.wcs)
         for k in ('img_f', 'img_i', 'datamask', 'pix_q', 'pix_s', 'sky_q', 'sky_s', 'rot_c', 'rot_a', 'list_pix', 'list_sky',
-                  'list_mixed', 'list_crtf', 'ds9_text', 'crtf_text', 'fits_table'):
+                  'list_mixed', 'list_crtf', 'ds9_text', 'crtf_text', 'fits_table', 'masks'):
             d[k] = FP.fp(getattr(self, k))
         for k in ('list_pix', 'list_sky', 'list_mixed', 'list_crtf'):
             vals = list(self.reg.values())
@@ -216,6 +219,10 @@ OPS = {
     'mask_multiply': lambda c: [_try(lambda r=r: FP.fp(r.to_mask('subpixels', subpixels=2).multiply(c.img_f))) for r in _maskable(c)[:8]],
     'mask_multiply_int': lambda c: [_try(lambda r=r: FP.fp(r.to_mask('center').multiply(c.img_i, fill_value=7))) for r in _maskable(c)],
     'mask_get_values': lambda c: [_try(lambda r=r: FP.fp(r.to_mask('center').get_values(c.img_f, mask=c.datamask))) for r in _maskable(c)],
+    'poolmask_get_values_masked': lambda c: [_try(lambda m=m: FP.fp(m.get_values(c.img_f, mask=c.datamask))) for m in c.masks],
+    'poolmask_get_values': lambda c: [_try(lambda m=m: FP.fp(m.get_values(c.img_i))) for m in c.masks],
+    'poolmask_multiply_cutout': lambda c: [_try(lambda m=m: [FP.fp(m.multiply(c.img_f, fill_value=-1.0)), FP.fp(m.cutout(c.img_i, copy=True))]) for m in c.masks],
+    'poolmask_to_image': lambda c: [_try(lambda m=m: [FP.fp(m.to_image(c.img_f.shape)), FP.fp(np.array(m))]) for m in c.masks],
     'area': lambda c: [_try(lambda r=r: FP.fp(r.area)) for r in _pix(c)],
     'bounding_box': lambda c: [_try(lambda r=r: FP.fp(r.bounding_box)) for r in _pix(c)],
     'to_sky': lambda c: [_try(lambda r=r: FP.fp(r.to_sky(c.wcs))) for r in _pix(c)],
